@@ -39,7 +39,9 @@ type C06Spec struct {
 func drawC06(rt *rapid.T) C06Spec {
 	s := C06Spec{LibSeed: rapid.Uint64().Draw(rt, "libseed"), ValSeed: rapid.Uint64().Draw(rt, "valseed")}
 	s.Key = drawKeyName(rt, "key")
-	n := rapid.IntRange(1, 6).Draw(rt, "nattrs")
+	// up to as many attributes as the key has bases for (all committed keys have 8 bases: secret + 7)
+	maxAttrs := len(kernel.GetKey(s.Key).Pk.R) - 1
+	n := rapid.IntRange(1, maxAttrs).Draw(rt, "nattrs")
 	for i := 0; i < n; i++ {
 		s.Classes = append(s.Classes, rapid.IntRange(0, nValueClasses-1).Draw(rt, "class"))
 	}
@@ -53,6 +55,9 @@ func drawC06(rt *rapid.T) C06Spec {
 		}
 	}
 	s.Witness = rapid.Bool().Draw(rt, "witness")
+	if n == maxAttrs {
+		s.Witness = false // the witness value needs a base of its own
+	}
 	return s
 }
 
